@@ -171,6 +171,66 @@ macro_rules! inline_type {
     };
 }
 
+/// Plain inline value, over-aligned and wide: more than 256 bytes, so that rows holding it exceed
+/// any small inline buffer and the type itself exceeds small-size thresholds. The padding words
+/// are derived from the serial and checked on every observation.
+macro_rules! wide_type {
+    ($name:ident, $ix:expr, $align:literal, $words:literal) => {
+        #[repr(C, align($align))]
+        pub struct $name {
+            p: Payload,
+            pad: [u64; $words],
+        }
+        impl $name {
+            fn make_with(val: u64, origin: Origin) -> Self {
+                let p = Payload::new($ix, val, origin);
+                let mut pad = [0u64; $words];
+                for (i, w) in pad.iter_mut().enumerate() {
+                    *w = p.serial.wrapping_mul(0x9E37_79B9_7F4A_7C15) ^ i as u64;
+                }
+                $name { p, pad }
+            }
+        }
+        impl Tracked for $name {
+            const IX: u8 = $ix;
+            const NAME: &'static str = stringify!($name);
+            const HAS_SERIAL: bool = true;
+            fn make(val: u64) -> Self {
+                Self::make_with(val, Origin::New)
+            }
+            fn serial(&self) -> u64 {
+                self.p.serial
+            }
+            fn val(&self) -> u64 {
+                self.p.val
+            }
+            fn set_val(&mut self, val: u64) {
+                self.p.set($ix, val)
+            }
+            fn integrity(&self) -> Result<(), String> {
+                if (self as *const Self as usize) % $align != 0 {
+                    return Err(format!("misaligned {} at {:p}", stringify!($name), self));
+                }
+                self.p.integrity($ix, stringify!($name))?;
+                for (i, w) in self.pad.iter().enumerate() {
+                    if *w != self.p.serial.wrapping_mul(0x9E37_79B9_7F4A_7C15) ^ i as u64 {
+                        return Err(format!("{} #{}: word {i} of its body is {:#x} (torn or foreign bytes)", stringify!($name), self.p.serial, *w));
+                    }
+                }
+                Ok(())
+            }
+        }
+        impl Drop for $name {
+            fn drop(&mut self) {
+                ledger::dropped(self.p.serial, $ix, stringify!($name));
+                fault::callback(Kind::Drop);
+            }
+        }
+        common_impls!($name);
+        serde_u64!($name);
+    };
+}
+
 /// Value owning a `Box`.
 macro_rules! boxed_type {
     ($name:ident, $ix:expr) => {
@@ -487,7 +547,7 @@ macro_rules! nodrop_type {
 inline_type!(A, 0, 8);
 zst_type!(Z, 1);
 boxed_type!(H, 2);
-inline_type!(O, 3, 64);
+wide_type!(O, 3, 64, 40);
 byte_type!(S, 4);
 vec_type!(V, 5);
 inline_type!(W, 6, 16);
